@@ -1,4 +1,7 @@
 RULES = [
+    ("C02-F4", "a derived bundle p = bb OP k consumed both by a gate '(bb[\"t\"] > c) : p' and by a selection p[\"u\"] + 1: the "
+               "selection reads 0 for the member (the selected member never reaches the adder)",
+     lambda c, d: "+sel-result" in c["tag"]),
     ("C02-F1", "gating '(s CMP k) : bundle': the condition signal travels on the same network as the bundle and the "
                "signal-everything output passes it on, so the scalar leaks into the result",
      lambda c, d: c["tag"].startswith("gate")),
